@@ -181,7 +181,7 @@ func RunCell(c *Cell) (res *Result) {
 		} else {
 			cmd = exec.Command(c.VPlugin)
 			pc, _ := json.Marshal(c.Plugin)
-			cmd.Env = append(cmd.Env, "VP_CONF="+string(pc), "TMPDIR="+pluginDir)
+			cmd.Env = append(cmd.Env, "VP_CONF="+string(pc), "TMPDIR="+pluginDir, "PATH="+os.Getenv("PATH"))
 		}
 		return cmd
 	}
@@ -302,7 +302,7 @@ func RunCell(c *Cell) (res *Result) {
 				stores[cur()] = st
 			}
 			record(op, t0, err, "")
-		case "set", "get", "callback", "big", "print":
+		case "set", "get", "callback", "revcallback", "big", "print":
 			i := cur()
 			if j, e := strconv.Atoi(strings.TrimPrefix(arg, "@")); e == nil && strings.HasPrefix(arg, "@") {
 				i = j
@@ -321,6 +321,8 @@ func RunCell(c *Cell) (res *Result) {
 				record(op, t0, err, strconv.Itoa(int(v)))
 			case "callback":
 				record(op, t0, st.Callback(), "")
+			case "revcallback":
+				record(op, t0, st.RevCallback(), "")
 			case "big":
 				n, _ := strconv.Atoi(arg)
 				got, err := st.Big(n)
